@@ -50,9 +50,10 @@ PROPERTIES = {
     "C02": {
         "level": "fault_enumeration",
         "wall_cap": {"quick": 150.0, "thorough": 3000.0},
-        "rule": "for each pool (query, backend, wire, output-directory state in {empty, holds another query's package}) the "
-                "write phase is run once fault-free counting its file-system calls (open/write/close/chmod), then once per "
-                "selected call index with that call raising OSError; whenever translation returns, the package must be "
+        "rule": "for each pool (query, backend, wire, output-directory state in {empty, holds another query's package, "
+                "shared with a kept executor of another backend}) the write phase is run once fault-free counting its "
+                "file-system calls (open/write/close/chmod), then once per call index with that call raising OSError, followed "
+                "by a fault-free retry with the same executor into the same directory; whenever translation returns, the package must be "
                 "complete (all named files present, non-empty, byte-identical to the fault-free rendering, entry script 0755, "
                 "no template directive left). Non-trivial = a case in which at least one fault fired; distinct = "
                 "(query, dir state, call kind, file) tuples.",
@@ -88,7 +89,7 @@ def _c02_space(tier):
         for name, steps in pools.QUERIES[b]:
             if "_bad_" in name:
                 continue
-            for stale in (False, True):
+            for stale in (False, True, "kept_cross"):
                 wires = ("ast", "qastle") if tier == "thorough" else ("ast",)
                 for wire in wires:
                     items.append((b, name, stale, wire))
@@ -140,9 +141,10 @@ def make_case(prop, tier, seed, i):
         pairs = [(p, m) for (p, _), m in zip(q["md"], q["md_names"]) if m in keep]
         q["md_names"] = [m for _, m in pairs]
         q["md"] = [[p, pools.METADATA[m][0]] for p, m in pairs]
-        other = pools.QUERIES[b][0]
+        ob = b if stale != "kept_cross" else BACKENDS[(BACKENDS.index(b) + 1) % 3]
+        other = pools.QUERIES[ob][0]
         return {"engine": NAME, "prop": prop, "seed": seed, "run": i, "backend": b, "query": q, "stale": stale,
-                "stale_query": {"name": other[0], "backend": b, "steps": other[1], "md": [], "md_names": [], "wire": "ast"},
+                "stale_query": {"name": other[0], "backend": ob, "steps": other[1], "md": [], "md_names": [], "wire": "ast"},
                 "errno": ["ENOSPC", "EIO", "EACCES"][i % 3],
                 "select": "all", "sel_seed": rng.randrange(1 << 30), "faults": None}
     # ---- C07: swarm configuration first, then the history
@@ -324,19 +326,30 @@ def _c02_child(case, k, ref):
     import stat as _stat
     d = xlate.make_outdir(_scratch, f"c02-{os.getpid()}")
     try:
-        if case["stale"]:
+        exe = None
+        if case["stale"] == "kept_cross":
+            # one kept executor translates the query into D, an executor of another backend translates its own
+            # query into the same D, then the kept executor translates the query into D again (that one is judged)
+            exe = xlate.executor_class(case["backend"])()
+            xlate.translate(exe, case["query"], d)
+            e0 = xlate.executor_class(case["stale_query"]["backend"])()
+            xlate.translate(e0, case["stale_query"], d)
+        elif case["stale"]:
             e0 = xlate.executor_class(case["backend"])()
             xlate.translate(e0, case["stale_query"], d)
-            # a stale package from a *previous process* is what matters, not its registry state: start clean
-            import func_adl_xAOD.common.cpp_types as ctyp
-            ctyp.g_method_type_dict = {}
-            ctyp.g_toplevel_ns = {}
-        exe = xlate.executor_class(case["backend"])()
+        if exe is None:
+            exe = xlate.executor_class(case["backend"])()
         plan = xlate.IOPlan(d, k=k, err=case["errno"])
         got = xlate.translate(exe, case["query"], d, io_plan=plan)
-        out = {"k": k, "fired": list(plan.fired) if plan.fired else None, "outcome": got["outcome"],
-               "type": got.get("type"), "oserror": got.get("oserror"), "calls": [list(c) for c in plan.calls],
-               "problems": []}
+        first = got
+        retried = False
+        if k is not None and plan.fired and got["outcome"] == "raise":
+            # the fault has cleared: the same executor translates the same query into the same directory again
+            got = xlate.translate(exe, case["query"], d)
+            retried = True
+        out = {"k": k, "fired": list(plan.fired) if plan.fired else None, "outcome": first["outcome"],
+               "type": first.get("type"), "oserror": first.get("oserror"), "calls": [list(c) for c in plan.calls],
+               "problems": [], "retried": retried, "retry_outcome": got["outcome"] if retried else None}
         if got["outcome"] == "ok":
             pr = out["problems"]
             for fn in got["all_filenames"]:
@@ -360,10 +373,14 @@ def _c02_child(case, k, ref):
                     if got["files"].get(fn) != ref["files"][fn]:
                         pr.append(f"file {fn} differs from the fault-free rendering of the same query "
                                   f"(len {len(got['files'].get(fn) or '')} vs {len(ref['files'][fn])})")
-            if plan.fired:
+            if plan.fired and not retried:
                 pr.insert(0, f"I/O error injected at call #{k} ({plan.fired[0]} {plan.fired[1]}) but translation returned")
-        elif plan.fired and not got.get("oserror"):
-            out["problems"].append(f"injected OSError at call #{k} surfaced as {got.get('type')} without the OSError in its chain")
+            if retried and pr:
+                pr[:] = [f"retry after the I/O error at call #{k} ({plan.fired[0]} {plan.fired[1]}) returned an incomplete package: " + x for x in pr]
+        elif retried:
+            out["problems"].append(f"retry after the I/O error at call #{k} raised {got.get('type')}: {got.get('msg', '')[:200]}")
+        if plan.fired and first["outcome"] == "raise" and not first.get("oserror"):
+            out["problems"].append(f"injected OSError at call #{k} surfaced as {first.get('type')} without the OSError in its chain")
         return out
     finally:
         shutil.rmtree(d, ignore_errors=True)
@@ -378,7 +395,7 @@ def _c02_execute(case):
         stats[k] = stats.get(k, 0) + n
 
     base = isolate.call_isolated(_c02_child, (case, None, ref), timeout=60)
-    log.append({"k": None, "outcome": base["outcome"], "calls": len(base["calls"]), "problems": base["problems"]})
+    log.append({"k": None, "stale": case["stale"], "outcome": base["outcome"], "calls": len(base["calls"]), "problems": base["problems"]})
     if base["outcome"] != "ok":
         bump("skipped_query_does_not_translate")
         return {"log": log, "violations": [], "stats": stats, "states": [], "nontrivial": []}
@@ -413,6 +430,8 @@ def _c02_execute(case):
             nontrivial.append(fingerprint([case["query"]["name"], case["stale"], kind, rel]))
         if o["outcome"] == "raise":
             bump("reach:raised_on_fault")
+        if o.get("retried"):
+            bump("reach:retry_after_fault_same_executor_same_dir")
         for p in o["problems"]:
             viols.append({"property": "C02", "invariant": "package-incomplete", "k": k,
                           "detail": f"{case['query']['name']} (stale={case['stale']}) fault@{k}={kind}:{rel}: {p}"})
